@@ -29,6 +29,18 @@ CHECKS = {
                      "bulk == per-sample, introspection, dispose/worker hooks reach every child); all obligations discharged; "
                      "constructibility under the installed torch is a frame obligation",
                 note=TRUST + "; accessor-name dispatch is verified for one representative name per prefix class; int(a/b) treated as exact truncation"),
+    "C07": dict(level="proof", technique="frame / effect obligations decided on the AST of every transform class (random sources read, set_rng reach over a class model) + contract verification of every set_rng override (AST->SMT, ghost call maps) + bounded two-instance differential",
+                text="for each of the ~80 transform classes discovered on every run: no method reads a process-global random source, set_rng rebinds the own generator and reaches every member that can draw "
+                     "(path-sensitive SMT contracts for the 12 overrides incl. loops over symbolic member lists), all names bound; hence output and ctx are a function of the injected seed and the inputs",
+                note=TRUST + "; frame obligations are deductive but not SMT proofs (back end 'frame-checker'); torchvision / PIL kernels assumed deterministic and RNG-free"),
+    "C08": dict(level="proof", technique="contract-based deductive verification of the seeded getitem paths (generator key seed+idx reaches every KD transform, loops over view configs / transform lists) + frame obligations (no in-place write to dataset values, names bound) + bounded stand-in with real DataLoader workers",
+                text="TransformWrapperBase._getitem, KDMultiViewWrapper.getitem_x, SemsegTransformWrapper.getitem_xsemseg: with a seed every KD transform receives default_rng(seed + idx) before it is applied, on every path; "
+                     "no in-place tensor operation on values obtained from the wrapped dataset anywhere in the sample-wrapper packages",
+                note=TRUST + "; relies on C07 for what a transform does with the injected generator; KDMixWrapper internals and the ready-made pipelines are bounded only"),
+    "C09": dict(level="proof", technique="contract-based deductive verification of every worker hook (reach over children / owned transforms / collators by loop invariants, AST->SMT) + class-model frame obligations + simulated workers",
+                text="worker_init_fn of KDWrapper / KDSubset / KDConcatDataset / ModeWrapper / interleaved concat dataset reaches every child; KDDataset re-seeds every registered collator; a transform's hook rebinds its generator from the "
+                     "worker's global RNG and (through set_rng, C07) every member at any depth; every sample wrapper that owns transforms has a hook reaching them. The statistical clause ('never replay one another's stream, not even in part') is not applicable and says so in the evidence",
+                note=TRUST + "; torch seeds each worker's global numpy RNG (DataLoader contract)"),
     "C12": dict(level="proof", technique="contract-based deductive verification (AST->SMT, z3+cvc5) over integer-sequence terms; frame check for rank independence; bounded oracle",
                 text="per-rank stream == strided slice of one global draw keyed by seed+epoch, length == len(sampler), repeats occupy consecutive slots: "
                      "postconditions at the yield sites of DistributedSampler/RandomSampler/WeightedSampler.__iter__, lengths of ClassBalancedSampler, all discharged; "
